@@ -635,8 +635,26 @@ Hypothesis Hc1 : (c1 < ncols)%nat.
 Hypothesis Hc2 : (c2 < ncols)%nat.
 Hypothesis Hwidth : Forall (fun r : row => length r = ncols) rows.
 
+Lemma prim_qobj_query : prim "attr:query" [qobj] = Ok subq.
+Proof. reflexivity. Qed.
+Lemma prim_qobj_pivots : prim "attr:pivots" [qobj] = Ok (PTuple [idx_pv c1; idx_pv c2]).
+Proof. reflexivity. Qed.
+
 Lemma oc_lt i : In i oc -> (i < ncols)%nat.
 Proof. unfold other_cols. intros H. apply filter_In in H as [H _]. apply in_seq in H. lia. Qed.
+
+Lemma prim_attr_query_raw q p : prim "attr:query" [PTuple [q; p]] = Ok q.
+Proof. reflexivity. Qed.
+Lemma prim_attr_pivots_raw q p : prim "attr:pivots" [PTuple [q; p]] = Ok p.
+Proof. reflexivity. Qed.
+Lemma index2_0 (a b : pv) : index_at [a; b] 0 = Ok a.
+Proof. reflexivity. Qed.
+Lemma index2_1 (a b : pv) : index_at [a; b] 1 = Ok b.
+Proof. reflexivity. Qed.
+Lemma prim_attr_name_raw n d : prim "attr:name" [PTuple [n; d]] = Ok n.
+Proof. reflexivity. Qed.
+Lemma prim_attr_datatype_raw n d : prim "attr:datatype" [PTuple [n; d]] = Ok d.
+Proof. reflexivity. Qed.
 
 Section Evals.
 Variables (loc flds : env).
@@ -736,5 +754,324 @@ Proof.
                   (lookup_update_eq _ _ _))).
     rewrite (index_at_nat items i PNone (Hlt i Hi)). reflexivity.
 Qed.
+
+Lemma col_nth_d c : nth c colobjs (column_obj PNone PNone) = column_obj (name_of c) (dtype_of c).
+Proof. exact (map_nth (fun nd : pv * pv => column_obj (fst nd) (snd nd)) incols (PNone, PNone) c). Qed.
+
+Lemma col_at c : (c < ncols)%nat -> index_at colobjs (Z.of_nat c) = Ok (column_obj (name_of c) (dtype_of c)).
+Proof.
+  intros H. rewrite (index_at_nat colobjs c (column_obj PNone PNone)) by (rewrite map_length; exact H).
+  rewrite col_nth_d. reflexivity.
+Qed.
+
+Lemma col_nth c : (c < ncols)%nat -> nth c colobjs PNone = column_obj (name_of c) (dtype_of c).
+Proof.
+  intros H. rewrite (nth_indep colobjs PNone (column_obj PNone PNone)) by (rewrite map_length; exact H).
+  apply col_nth_d.
+Qed.
+
+(* columns[x].a *)
+Lemma colattr_eval (x : string) (c : nat) (a : string) :
+  lookup "columns" loc = Some (PTuple colobjs) -> lookup x loc = Some (idx_pv c) -> (c < ncols)%nat ->
+  PyMini.eval call_ref prim s (XAttr (XIndex (XName "columns") (XName x)) a) =
+  bind (prim ("attr:" ++ a) [column_obj (name_of c) (dtype_of c)]) (fun v => Ok (s, v)).
+Proof.
+  intros Hcols Hx Hc.
+  rewrite (eval_attr call_ref prim _ a s s (column_obj (name_of c) (dtype_of c))); [reflexivity| |discriminate].
+  rewrite (eval_index_tuple call_ref prim _ _ _ _ _ colobjs (Z.of_nat c)
+             (eval_name call_ref prim s "columns" _ Hcols) (eval_name call_ref prim s x _ Hx)).
+  rewrite (col_at c Hc). reflexivity.
+Qed.
+
+Definition first_expr : expr :=
+  XPrim "fstring" [XAttr (XIndex (XName "columns") (XName "col1")) "name"; XConst (PV (VStr [47]));
+                   XAttr (XIndex (XName "columns") (XName "col2")) "name"].
+
+Lemma eval_prim3 name a b c va vb vc :
+  PyMini.eval call_ref prim s a = Ok (s, va) -> PyMini.eval call_ref prim s b = Ok (s, vb) ->
+  PyMini.eval call_ref prim s c = Ok (s, vc) ->
+  PyMini.eval call_ref prim s (XPrim name [a; b; c]) = bind (prim name [va; vb; vc]) (fun r => Ok (s, r)).
+Proof.
+  intros Ha Hb Hc. cbn [PyMini.eval]. rewrite Ha. cbn [bind]. rewrite Hb. cbn [bind]. rewrite Hc. reflexivity.
+Qed.
+
+Lemma first_eval :
+  lookup "columns" loc = Some (PTuple colobjs) -> lookup "col1" loc = Some (idx_pv c1) ->
+  lookup "col2" loc = Some (idx_pv c2) -> PyMini.eval call_ref prim s first_expr = Ok (s, first_name).
+Proof.
+  intros Hcols H1 H2. unfold first_expr.
+  rewrite (eval_prim3 "fstring" _ _ _ (name_of c1) slash (name_of c2)).
+  - rewrite prim_fstring. reflexivity.
+  - rewrite (colattr_eval "col1" c1 "name" Hcols H1 Hc1). cbn [String.append]. rewrite prim_attr_name. reflexivity.
+  - reflexivity.
+  - rewrite (colattr_eval "col2" c2 "name" Hcols H2 Hc2). cbn [String.append]. rewrite prim_attr_name. reflexivity.
+Qed.
+
+Lemma eval_add_list1 e1 e2 v l :
+  PyMini.eval call_ref prim s e1 = Ok (s, v) -> PyMini.eval call_ref prim s e2 = Ok (s, PList l) ->
+  PyMini.eval call_ref prim s (XBin OAdd (XList [e1]) e2) = Ok (s, PList (v :: l)).
+Proof. intros H1 H2. cbn [PyMini.eval]. rewrite H1. cbn [bind]. rewrite H2. reflexivity. Qed.
+
+Lemma eval_mul_list a b l n :
+  PyMini.eval call_ref prim s a = Ok (s, PList l) -> PyMini.eval call_ref prim s b = Ok (s, PInt n) ->
+  PyMini.eval call_ref prim s (XBin OMul a b) = Ok (s, PList (concat (repeat l (Z.to_nat n)))).
+Proof. intros H1 H2. cbn [PyMini.eval]. rewrite H1. cbn [bind]. rewrite H2. reflexivity. Qed.
+
+Definition other_columns_expr : expr :=
+  XPrim "builtins.tuple" [XListComp (XIndex (XName "columns") (XName "i")) "i" (XName "othercols") None].
+
+Lemma other_columns_eval :
+  lookup "columns" loc = Some (PTuple colobjs) -> lookup "othercols" loc = Some (PList (map idx_pv oc)) ->
+  PyMini.eval call_ref prim s other_columns_expr =
+  Ok (s, PTuple (map (fun c => column_obj (name_of c) (dtype_of c)) oc)).
+Proof.
+  intros Hcols Hoc. unfold other_columns_expr.
+  rewrite (other_eval "columns" colobjs eq_refl Hcols Hoc) by (intros i Hi; rewrite map_length; apply oc_lt; exact Hi).
+  do 3 f_equal. apply map_ext_in. intros c Hc. apply col_nth. apply oc_lt. exact Hc.
+Qed.
+
+Definition KC : list (value * nat) := flat_map (fun k => map (fun c => (k, c)) oc) keys.
+Definition itm (kc : value * nat) : pv := PTuple [PV (fst kc); column_obj (name_of (snd kc)) (dtype_of (snd kc))].
+
+Lemma map_flat_pairs {K C B} (f : K * C -> B) (ks : list K) (cs : list C) :
+  map f (flat_map (fun k => map (fun c => (k, c)) cs) ks) = flat_map (fun k => map (fun c => f (k, c)) cs) ks.
+Proof. induction ks as [|k t IH]; [reflexivity|]. cbn [flat_map]. rewrite map_app, map_map, IH. reflexivity. Qed.
+
+(* it = itertools.product(keys, other(columns)) *)
+Lemma it_eval :
+  lookup "columns" loc = Some (PTuple colobjs) -> lookup "othercols" loc = Some (PList (map idx_pv oc)) ->
+  lookup "keys" loc = Some (PList (map PV keys)) ->
+  PyMini.eval call_ref prim s (XPrim "itertools.product" [XName "keys"; other_columns_expr]) = Ok (s, PList (map itm KC)).
+Proof.
+  intros Hcols Hoc Hkeys.
+  rewrite (eval_prim2 call_ref prim "itertools.product" _ _ s s s _ _ (eval_name call_ref prim s "keys" _ Hkeys)
+             (other_columns_eval Hcols Hoc)).
+  rewrite prim_product. cbn [bind]. unfold KC. rewrite map_flat_pairs. do 3 f_equal.
+  generalize keys as ks. induction ks as [|k t IH]; [reflexivity|].
+  cbn [map flat_map]. rewrite IH, !map_map. reflexivity.
+Qed.
+
+Lemma names_true_eval : (1 <? length oc)%nat = true ->
+  lookup "columns" loc = Some (PTuple colobjs) -> lookup "col1" loc = Some (idx_pv c1) ->
+  lookup "col2" loc = Some (idx_pv c2) -> lookup "it" loc = Some (PList (map itm KC)) ->
+  PyMini.eval call_ref prim s
+    (XBin OAdd (XList [first_expr])
+       (XListComp (XPrim "fstring" [XIndex (XName "$t") (XConst (PInt 0)); XConst (PV (VStr [47]));
+                                    XAttr (XIndex (XName "$t") (XConst (PInt 1))) "name"]) "$t" (XName "it") None)) =
+  Ok (s, PList names_list).
+Proof.
+  intros Hlt Hcols H1 H2 Hit. unfold names_list. rewrite Hlt.
+  apply eval_add_list1; [apply first_eval; assumption|].
+  rewrite (eval_listcomp call_ref prim _ _ _ s s _ (eval_name call_ref prim s "it" _ Hit)).
+  rewrite (map_res_map_ok' itm _ (fun kc => fstring_obj [PV (fst kc); slash; name_of (snd kc)])).
+  - unfold KC. rewrite map_flat_pairs. reflexivity.
+  - intros [k c] _. unfold itm. cbn [fst snd].
+    repeat (progress (cbn [PyMini.eval bind read write locals fields snd column_obj String.append PInt];
+                      rewrite ?lookup_update_eq, ?index2_0, ?index2_1, ?prim_attr_name_raw, ?prim_fstring)).
+    reflexivity.
+Qed.
+
+Lemma names_false_eval : (1 <? length oc)%nat = false ->
+  lookup "columns" loc = Some (PTuple colobjs) -> lookup "col1" loc = Some (idx_pv c1) ->
+  lookup "col2" loc = Some (idx_pv c2) -> lookup "keys" loc = Some (PList (map PV keys)) ->
+  PyMini.eval call_ref prim s
+    (XBin OAdd (XList [first_expr]) (XListComp (XPrim "fstring" [XName "key"]) "key" (XName "keys") None)) =
+  Ok (s, PList names_list).
+Proof.
+  intros Hlt Hcols H1 H2 Hkeys. unfold names_list. rewrite Hlt.
+  apply eval_add_list1; [apply first_eval; assumption|].
+  rewrite (eval_listcomp call_ref prim _ _ _ s s _ (eval_name call_ref prim s "keys" _ Hkeys)).
+  rewrite (map_res_map_ok' PV _ (fun k => fstring_obj [PV k])); [reflexivity|].
+  intros k _.
+  repeat (progress (cbn [PyMini.eval bind read write locals fields snd]; rewrite ?lookup_update_eq)).
+  rewrite prim_fstring. reflexivity.
+Qed.
+
+Lemma dtypes_eval :
+  lookup "columns" loc = Some (PTuple colobjs) -> lookup "col1" loc = Some (idx_pv c1) ->
+  lookup "othercols" loc = Some (PList (map idx_pv oc)) -> lookup "keys" loc = Some (PList (map PV keys)) ->
+  PyMini.eval call_ref prim s
+    (XBin OAdd (XList [XAttr (XIndex (XName "columns") (XName "col1")) "datatype"])
+       (XBin OMul (XListComp (XAttr (XName "col") "datatype") "col" other_columns_expr None) (XLen (XName "keys")))) =
+  Ok (s, PList dtypes_list).
+Proof.
+  intros Hcols H1 Hoc Hkeys. unfold dtypes_list.
+  apply eval_add_list1.
+  - rewrite (colattr_eval "col1" c1 "datatype" Hcols H1 Hc1). cbn [String.append]. rewrite prim_attr_datatype. reflexivity.
+  - replace (length keys) with (Z.to_nat (Z.of_nat (length keys))) by apply Nat2Z.id.
+    apply eval_mul_list.
+    + rewrite (eval_listcomp_tuple call_ref prim _ _ _ s s _ (other_columns_eval Hcols Hoc)).
+      rewrite (map_res_map_ok' (fun c => column_obj (name_of c) (dtype_of c)) _ dtype_of); [reflexivity|].
+      intros c _.
+      repeat (progress (cbn [PyMini.eval bind read write locals fields snd column_obj String.append];
+                        rewrite ?lookup_update_eq, ?prim_attr_datatype_raw)).
+      reflexivity.
+    + cbn [PyMini.eval read locals bind]. rewrite Hkeys. cbn [bind]. rewrite map_length. reflexivity.
+Qed.
+
+(* columns = tuple(Column(name, datatype) for name, datatype in zip(names, datatypes)) *)
+Lemma columns_eval :
+  lookup "names" loc = Some (PList names_list) -> lookup "datatypes" loc = Some (PList dtypes_list) ->
+  PyMini.eval call_ref prim s
+    (XPrim "builtins.tuple"
+       [XListComp (XCall (XConst (PRef 4)) [XIndex (XName "$t") (XConst (PInt 0)); XIndex (XName "$t") (XConst (PInt 1))] None)
+          "$t" (XPrim "builtins.zip" [XName "names"; XName "datatypes"]) None]) =
+  Ok (s, PTuple (map hdr_pv (pivot_header keys oc))).
+Proof.
+  intros Hn Hd.
+  rewrite (eval_prim1 call_ref prim "builtins.tuple" _ s s
+             (PList (map (fun p : pv * pv => column_obj (fst p) (snd p)) (combine names_list dtypes_list)))).
+  - rewrite prim_tuple', header_zip. reflexivity.
+  - rewrite (eval_listcomp call_ref prim _ _ _ s s
+               (map (fun p : pv * pv => PTuple [fst p; snd p]) (combine names_list dtypes_list))).
+    + rewrite (map_res_map_ok' (fun p : pv * pv => PTuple [fst p; snd p]) _ (fun p => column_obj (fst p) (snd p)));
+        [reflexivity|].
+      intros [n d] _. cbn [fst snd].
+      repeat (progress (cbn [PyMini.eval bind read write locals fields snd do_call app PInt column_obj];
+                        rewrite ?lookup_update_eq, ?index2_0, ?index2_1, ?Hcolumn)).
+      reflexivity.
+    + rewrite (eval_prim2 call_ref prim "builtins.zip" _ _ s s s _ _ (eval_name call_ref prim s "names" _ Hn)
+                 (eval_name call_ref prim s "datatypes" _ Hd)).
+      rewrite prim_zip. reflexivity.
+Qed.
 End Evals.
+
+Lemma nother_cmp_eval loc flds :
+  lookup "nother" loc = Some (PInt (Z.of_nat (length oc))) ->
+  PyMini.eval call_ref prim {| locals := loc; fields := flds |} (XCompare (XName "nother") [(CGt, XConst (PInt 1))]) =
+  Ok ({| locals := loc; fields := flds |}, PBool (1 <? length oc)%nat).
+Proof.
+  intros Hn. cbn [PyMini.eval read locals bind]. rewrite Hn.
+  cbn [bind PyMini.eval compare1 PInt is_null orb rank Z.eqb negb]. rewrite val_le_int.
+  destruct (Z.leb_spec (Z.of_nat (length oc)) 1), (Nat.ltb_spec 1 (length oc)); try reflexivity; lia.
+Qed.
+
+Definition other_row_expr : expr :=
+  XPrim "builtins.tuple" [XListComp (XIndex (XName "row") (XName "i")) "i" (XName "othercols") None].
+Definition wide (r : row) : Prop := forall i, In i oc -> (i < length r)%nat.
+
+Lemma other_row_eval : forall loc flds (r : row), wide r ->
+  lookup "row" loc = Some (row_pv r) -> lookup "othercols" loc = Some (PList (map idx_pv oc)) ->
+  PyMini.eval call_ref prim {| locals := loc; fields := flds |} other_row_expr =
+  Ok ({| locals := loc; fields := flds |}, PTuple (map PV (other oc r))).
+Proof.
+  intros loc flds r Hw Hr Hoc. unfold other_row_expr.
+  rewrite (other_eval loc flds "row" (map PV r) eq_refl Hr Hoc) by (intros i Hi; rewrite map_length; apply Hw; exact Hi).
+  unfold other. rewrite map_map. do 3 f_equal. apply map_ext. intros i. unfold cell.
+  exact (map_nth PV r VNull i).
+Qed.
+
+(* opaque callable 3 is execute_select: on the inner query it returns the un-pivoted columns and rows *)
+Hypothesis Hsel : call_ref 3 [subq] = PTuple [PTuple colobjs; PList (map row_pv rows)].
+
+Ltac asg lem :=
+  rewrite exec_block_cons; erewrite exec_assign by (apply lem; try reflexivity; try assumption);
+  cbn [bind write locals fields update String.eqb Ascii.eqb Bool.eqb].
+
+(* PIVOT BY: the whole branch of execute_query = Model/Pivot.v's pivot (header entries as Column objects, rows) *)
+Theorem execute_query_pivot_src :
+  call_fun call_ref prim exec_execute_query [qobj] =
+  Ok (PTuple [PTuple (map hdr_pv (fst (pivot ncols c1 c2 rows))); PList (map row_pv (snd (pivot ncols c1 c2 rows)))]).
+Proof.
+  unfold call_fun, exec_execute_query. cbn [f_params f_body f_gen bind_params].
+  set (s0 := {| locals := [("query", qobj)]; fields := [] |}).
+  (* if isinstance(query, EvalQuery): no *)
+  assert (Eq1 : PyMini.eval call_ref prim s0 (XPrim "isinstance:beanquery.query_compile.EvalQuery" [XName "query"]) =
+                Ok (s0, PBool false)) by reflexivity.
+  assert (Eq2 : PyMini.eval call_ref prim s0 (XPrim "isinstance:beanquery.query_compile.EvalPivot" [XName "query"]) =
+                Ok (s0, PBool true)) by reflexivity.
+  rewrite exec_block_cons.
+  rewrite (exec_if call_ref prim _ _ _ s0 s0 (PBool false) false Eq1 eq_refl).
+  cbn [exec_block bind].
+  (* if isinstance(query, EvalPivot): yes *)
+  rewrite (exec_if call_ref prim _ _ _ s0 s0 (PBool true) true Eq2 eq_refl).
+  (* columns, rows = execute_select(query.query); col1, col2 = query.pivots *)
+  rewrite exec_block_cons. unfold s0.
+  repeat (progress (cbn [PyMini.exec PyMini.eval bind read write locals fields lookup update String.eqb Ascii.eqb
+                         Bool.eqb do_call app String.append pivot_obj qobj];
+                    rewrite ?prim_attr_query_raw, ?prim_attr_pivots_raw, ?prim_qobj_query, ?prim_qobj_pivots, ?Hsel)).
+  rewrite exec_block_cons.
+  repeat (progress (cbn [PyMini.exec PyMini.eval bind read write locals fields lookup update String.eqb Ascii.eqb
+                         Bool.eqb do_call app String.append pivot_obj qobj];
+                    rewrite ?prim_attr_query_raw, ?prim_attr_pivots_raw, ?prim_qobj_query, ?prim_qobj_pivots, ?Hsel)).
+  asg othercols_eval.
+  (* nother = len(othercols); other = lambda (inlined at its calls) *)
+  rewrite exec_block_cons.
+  cbn [PyMini.exec PyMini.eval bind read write locals fields lookup update String.eqb Ascii.eqb Bool.eqb].
+  rewrite map_length.
+  rewrite exec_block_cons. cbn [PyMini.exec bind].
+  fold keyset_expr. asg keys_eval.
+  (* names *)
+  rewrite exec_block_cons. fold first_expr. fold other_columns_expr.
+  erewrite exec_if by (try apply nother_cmp_eval; reflexivity).
+  assert (Hrest : forall loc,
+    lookup "columns" loc = Some (PTuple colobjs) -> lookup "rows" loc = Some (PList (map row_pv rows)) ->
+    lookup "col1" loc = Some (idx_pv c1) -> lookup "col2" loc = Some (idx_pv c2) ->
+    lookup "othercols" loc = Some (PList (map idx_pv oc)) -> lookup "nother" loc = Some (PInt (Z.of_nat (length oc))) ->
+    lookup "keys" loc = Some (PList (map PV keys)) -> lookup "names" loc = Some (PList names_list) ->
+    exists s', exec_block call_ref prim {| locals := loc; fields := [] |}
+      (skipn 7 (match nth 1 (f_body exec_execute_query) SPass with SIf _ a _ => a | _ => [] end)) =
+      Ok (Ret s' (PTuple [PTuple (map hdr_pv (fst (pivot ncols c1 c2 rows)));
+                          PList (map row_pv (snd (pivot ncols c1 c2 rows)))]))).
+  { intros loc Hcols Hrows H1 H2 Hoc Hn Hkeys Hnames.
+    cbn [exec_execute_query f_body nth skipn]. fold other_columns_expr.
+    asg dtypes_eval.
+    rewrite exec_block_cons.
+    erewrite exec_assign
+      by (apply columns_eval; [rewrite lookup_update_neq by reflexivity; exact Hnames|apply lookup_update_eq]).
+    cbn [bind write locals fields].
+    set (cols := map hdr_pv (pivot_header keys oc)).
+    match goal with |- context [exec_block _ _ {| locals := ?L; fields := ?F |} _] =>
+      destruct (fill_block call_ref Hnig keys oc c2 other_row_expr "othercols" (PList (map idx_pv oc)) wide
+                  eq_refl eq_refl eq_refl eq_refl eq_refl eq_refl eq_refl other_row_eval cols c1 rows L F) as [s' E]
+    end.
+    - apply Forall_forall. intros r Hr. rewrite Forall_forall in Hwidth. rewrite (Hwidth r Hr). exact Hc1.
+    - apply Forall_forall. intros r Hr. rewrite Forall_forall in Hwidth. split; [split|].
+      + rewrite (Hwidth r Hr). exact Hc2.
+      + apply pivot_keys_complete. exact Hr.
+      + intros i Hi. rewrite (Hwidth r Hr). apply oc_lt. exact Hi.
+    - rewrite !lookup_update_neq by reflexivity. exact Hrows.
+    - rewrite !lookup_update_neq by reflexivity. exact H1.
+    - apply lookup_update_eq.
+    - unfold fixed. rewrite !lookup_update_neq by reflexivity. repeat split; assumption.
+    - exists s'. unfold fill_stmts, outer_body, inner_body, other_row_expr in E. rewrite E.
+      unfold pivot. cbn [fst snd]. unfold made, cols. rewrite map_length. reflexivity. }
+  destruct (1 <? length oc)%nat eqn:Hlt.
+  - cbn [truthy]. asg it_eval. asg names_true_eval.
+    match goal with |- context [exec_block _ _ {| locals := ?L; fields := _ |} _] =>
+      destruct (Hrest L) as [s' E]; try reflexivity end.
+    cbn [exec_execute_query f_body nth skipn] in E. unfold other_columns_expr, first_expr, keyset_expr in *.
+    rewrite exec_block_nil. cbn [bind]. rewrite E. reflexivity.
+  - cbn [truthy]. asg names_false_eval.
+    match goal with |- context [exec_block _ _ {| locals := ?L; fields := _ |} _] =>
+      destruct (Hrest L) as [s' E]; try reflexivity end.
+    cbn [exec_execute_query f_body nth skipn] in E. unfold other_columns_expr, first_expr, keyset_expr in *.
+    rewrite exec_block_nil. cbn [bind]. rewrite E. reflexivity.
+Qed.
 End Whole.
+
+(* ------------------------------------------------------------------ the dispatch of execute_query *)
+Section Dispatch.
+Variable call_ref : nat -> list pv -> pv.
+Notation prim := (prims_exec call_ref exec_nig_single exec_nig_multi 1).
+
+(* a compiled SELECT (EvalQuery): execute_select(query), whatever it returns or raises *)
+Theorem execute_query_select_src : forall tbl d l,
+  call_fun call_ref prim exec_execute_query [query_obj tbl d l] = do_call call_ref (PRef 3) [query_obj tbl d l].
+Proof.
+  intros tbl d l. unfold call_fun, exec_execute_query. cbn [f_params f_body f_gen bind_params].
+  set (s0 := {| locals := [("query", query_obj tbl d l)]; fields := [] |}).
+  assert (Eq1 : PyMini.eval call_ref prim s0 (XPrim "isinstance:beanquery.query_compile.EvalQuery" [XName "query"]) =
+                Ok (s0, PBool true)) by reflexivity.
+  rewrite exec_block_cons.
+  rewrite (exec_if call_ref prim _ _ _ s0 s0 (PBool true) true Eq1 eq_refl).
+  rewrite exec_block_cons. unfold s0.
+  cbn [PyMini.exec PyMini.eval bind read locals fields lookup String.eqb Ascii.eqb Bool.eqb].
+  destruct (do_call call_ref (PRef 3) [query_obj tbl d l]); reflexivity.
+Qed.
+
+(* anything else (here: any scalar): RuntimeError *)
+Theorem execute_query_other_src : forall v : value,
+  call_fun call_ref prim exec_execute_query [PV v] = Exc RuntimeError.
+Proof. intros v. reflexivity. Qed.
+End Dispatch.
